@@ -31,7 +31,7 @@ fn backoff_sub(tier: Tier) -> Sub {
   let ms = |v: u64| Duration::from_millis(v);
   let bases: Vec<u64> = vec![0, 1, 2, 3, 20, 100, 999, 1000, 60_000, i32::MAX as u64];
   let maxes: Vec<u64> = vec![0, 1, 2, 19, 20, 21, 80, 100, 101, 250, 1000, 60_000, 3_600_000, i32::MAX as u64];
-  let n = tier.pick(70, 300);
+  let n = tier.pick(70, 1000);
   sub.bounds = json!({"bases_ms": bases, "maxes_ms": maxes, "attempts": n});
   let pairs: Vec<(u64, u64)> = bases.iter().flat_map(|b| maxes.iter().map(move |m| (*b, *m))).collect();
   par::enumerate(&mut sub, pairs.len(), |i| {
